@@ -853,4 +853,52 @@ theorem step_facts {ar : Bool} {cap : Nat} {s s' : St} {l : Label} (h : Inv ar c
             grind
 
 end Hand
+open Hand Store
+
+/-- the resources in the arena whose handle is still alive / that are doomed (flag set, not yet removed) -/
+def Hand.St.alive (s : St) : Nat := s.store.arena.iter.countP (fun p => !s.test p.2)
+def Hand.St.doomed (s : St) : Nat := s.store.arena.iter.countP (fun p => s.test p.2)
+
+/-- the interleaving that overflows the unused ring of a capacity-1 storage (three callbacks) -/
+def Hand.overflowWitness : List Label :=
+  [ .gReserve, .gPopUnused, .gPushNew,            -- create A
+    .aBegin, .aEndDrain, .aPopNew, .aPopNew,      -- callback 1: A enters the arena
+    .mark 0,                                      -- A's handle is dropped
+    .aBegin, .aVisit,                             -- callback 2: A is taken out of the arena, its slot is free …
+    .gReserve, .gPopUnused,                       -- … the gameplay thread reserves that slot and finds the unused ring empty …
+    .aPushUnused, .aEndDrain,                     -- … only now is A pushed onto the unused ring
+    .gPushNew,                                    -- B is shipped
+    .aPopNew, .aPopNew,                           -- B enters the arena (still callback 2)
+    .mark 1,                                      -- B's handle is dropped; nothing is created any more
+    .aBegin, .aVisit, .aPushUnused ]              -- callback 3: B is removed; the ring (capacity 1) still holds A
+
+/-- runs of the protocol: any number of steps from `s` to `s'` -/
+inductive Hand.Steps (ar : Bool) : St → St → Prop where
+  | refl (s : St) : Steps ar s s
+  | tail {s s' s'' : St} {l : Label} : Steps ar s s' → step ar s' l = some (.ok s'') → Steps ar s s''
+
+theorem Hand.Steps.reachable {ar : Bool} {cap : Nat} {s s' : St} (h : Reachable ar cap s) (hs : Steps ar s s') :
+    Reachable ar cap s' := by
+  induction hs with
+  | refl => exact h
+  | tail _ hst ih => exact Reachable.step ih hst
+
+theorem Hand.run_reachable {ar : Bool} {cap : Nat} {s s' : St} (h : Reachable ar cap s) (ls : List Label)
+    (hr : run ar s ls = .ok s') : Reachable ar cap s' := by
+  induction ls generalizing s with
+  | nil => simp [run] at hr; subst hr; exact h
+  | cons l ls ih =>
+    simp only [run] at hr
+    cases hst : step ar s l with
+    | none => simp [hst] at hr; exact ih h hr
+    | some r =>
+      cases r with
+      | error e => simp [hst] at hr
+      | ok s1 => simp [hst] at hr; exact ih (Reachable.step h hst) hr
+
+def Hand.finalOf (r : Except SFault St) : St := match r with | .ok s => s | .error _ => init 0
+def Hand.isOk (r : Except SFault St) : Bool := match r with | .ok _ => true | .error _ => false
+theorem Hand.ok_of_isOk {r : Except SFault St} (h : isOk r = true) : r = .ok (finalOf r) := by
+  cases r <;> simp_all [isOk, finalOf]
+
 end K
